@@ -20,6 +20,26 @@ func basicInfo(t types.Type) (types.BasicInfo, types.BasicKind) {
 	return 0, types.Invalid
 }
 
+func typeRange(k types.BasicKind) (int64, int64) {
+	switch k {
+	case types.Int8:
+		return -128, 127
+	case types.Int16:
+		return -32768, 32767
+	case types.Int32:
+		return -1 << 31, 1<<31 - 1
+	case types.Uint8:
+		return 0, 255
+	case types.Uint16:
+		return 0, 65535
+	case types.Uint32:
+		return 0, 1<<32 - 1
+	case types.Uint, types.Uint64, types.Uintptr:
+		return 0, inf
+	}
+	return -inf, inf
+}
+
 func wrapInt(v int64, k types.BasicKind) int64 {
 	switch k {
 	case types.Int8:
@@ -153,10 +173,25 @@ func (m *Machine) binop(op token.Token, x, y value, xt types.Type, in ssa.Instru
 		}
 	}
 	if xIsTerm || yIsTerm {
-		if info&types.IsUnsigned != 0 || (kind != types.Int && kind != types.Int64 && kind != types.Invalid && kind != types.UntypedInt) {
-			// narrower / unsigned symbolic arithmetic is not used by the library
-			if kind != types.Int32 { // rune arithmetic on table results tolerated
-				panic(unsupported(fmt.Sprintf("symbolic arithmetic on %v", xt)))
+		narrow := info&types.IsUnsigned != 0 || (kind != types.Int && kind != types.Int64 && kind != types.Invalid && kind != types.UntypedInt)
+		if narrow {
+			// narrow / unsigned symbolic arithmetic: only when the exact result provably fits the type
+			a, b := m.toTerm(x), m.toTerm(y)
+			var r *Term
+			switch op {
+			case token.ADD:
+				r = m.tb.Add(a, b)
+			case token.SUB:
+				r = m.tb.Sub(a, b)
+			case token.MUL:
+				r = m.tb.Mul(a, b)
+			}
+			if r != nil {
+				lo, hi := typeRange(kind)
+				if r.lo >= lo && r.hi <= hi {
+					return m.simp(r)
+				}
+				panic(unsupported(fmt.Sprintf("symbolic arithmetic on %v may wrap", xt)))
 			}
 		}
 		a, b := m.toTerm(x), m.toTerm(y)
